@@ -6,13 +6,16 @@
 
   The repositories compute ranges with SQLite's `LIMIT offset, count`, which does not clamp: a
   negative offset is 0 and a negative count is "no limit". So the full-strength statements are
-  false of the code (D01, D09). What is proved here, for every list and every pair of integers:
+  false of the list code (D01). What is proved here, for every list and every pair of integers:
 
-    * `Range`, `Trim`, `DeleteWith.ByRank`: model = Redis rule exactly when a decidable classifier
-      is off (`*_refines_partial` one way, `*_classifier_exact` the other way), with concrete
-      witnesses that every classified deviation is real;
-    * `Get`/`Set` index, `RangeWith.ByRank`, `ByScore` offset/count, `Len`: model = Redis rule at
-      full strength.
+    * `Range`, `Trim`: model = Redis rule exactly when a decidable classifier is off
+      (`*_refines_partial` one way, `*_classifier_exact` the other way), with concrete witnesses
+      that every classified deviation is real;
+    * `Get`/`Set` index, `RangeWith.ByRank`, `DeleteWith.ByRank`, `ByScore` offset/count, `Len`:
+      model = Redis rule at full strength. (`DeleteWith.ByRank` was D09: it lacked the
+      `start > stop` guard and reached SQLite as `limit a, <negative>`. The guard is now there,
+      `rank_delete_refines` has no hypotheses; what the raw statement does without the guard is
+      kept as `raw_rank_limit_exact` / `raw_rank_limit_deviates`.)
 
   Two region claims that were expected to hold are FALSE and are refuted below
   (`range_ordinary_region_claim_false`, `range_nonneg_region_claim_false`): `Range(2, 0)` on
@@ -217,7 +220,7 @@ theorem rank_slice_refines_partial {α} (l : List α) (a b : Int) (ha : 0 ≤ a)
     rw [if_pos this]
   · simp only [hab, if_false]
     apply (sqlLimit_eq_rankSlice_iff l a b ha hb).2
-    unfold rankDeleteDeviates
+    unfold rawRankLimitDeviates
     simp only [decide_eq_false_iff_not]
     omega
 
@@ -234,37 +237,32 @@ theorem rank_range_refines {α} (l : List α) (a b : Int) :
     simp only [h1, Bool.false_eq_true, if_false]
     exact rank_slice_refines_partial l a b (by omega) (by omega)
 
-theorem rank_delete_refines_partial {α} (l : List α) (a b : Int)
-    (ha : 0 ≤ a) (hb : 0 ≤ b) (hab : a ≤ b + 1) :
-    sqlLimit a (b - a + 1) l = Spec.rankSlice l a b := by
-  apply (sqlLimit_eq_rankSlice_iff l a b ha hb).2
-  unfold rankDeleteDeviates
-  simp only [decide_eq_false_iff_not]
-  omega
+/-- `zDeleteRank` including both early returns: full strength, no hypotheses (D09 is repaired: the
+victims of `DeleteWith.ByRank(a, b)` are exactly the Redis rank slice, for every list and every
+pair of integers) -/
+theorem rank_delete_refines {α} (l : List α) (a b : Int) :
+    modelRankDelete l a b = Spec.rankSlice l a b :=
+  rank_range_refines l a b
 
-/-- exact: `DeleteWith.ByRank(a, b)` (early return included) is wrong precisely when
-`0 ≤ b`, `b + 1 < a < n` -/
-theorem rank_delete_classifier_exact {α} (l : List α) (a b : Int) :
-    modelRankDelete l a b = Spec.rankSlice l a b ↔ rankDeleteDeviates l.length a b = false := by
-  unfold modelRankDelete
-  by_cases h : a < 0 ∨ b < 0
-  · have h1 : (decide (a < 0) || decide (b < 0)) = true := by simpa using h
-    have h2 : a < 0 ∨ b < 0 ∨ a > b := by omega
-    simp only [h1, if_true, Spec.rankSlice, h2, true_iff]
-    unfold rankDeleteDeviates
-    simp only [decide_eq_false_iff_not]
-    omega
-  · have h1 : (decide (a < 0) || decide (b < 0)) = false := by
-      simp only [Bool.or_eq_false_iff, decide_eq_false_iff_not]; omega
-    simp only [h1, Bool.false_eq_true, if_false]
-    exact sqlLimit_eq_rankSlice_iff l a b (by omega) (by omega)
+/-- remove-by-rank and range-by-rank select the same elements -/
+theorem rank_delete_eq_rank_range {α} (l : List α) (a b : Int) :
+    modelRankDelete l a b = modelRankRange l a b := rfl
 
-/-- D09 -/
-theorem rank_delete_deviates :
-    sqlLimit 3 (1 - 3 + 1) [0, 1, 2, 3, 4] ≠ Spec.rankSlice [0, 1, 2, 3, 4] 3 1 := by decide
+/-- the RAW statement `limit a, b - a + 1`, which no caller reaches with `a > b` any more: it is
+the Redis rank slice exactly when `rawRankLimitDeviates` is off, i.e. unless `b + 1 < a < n` -/
+theorem raw_rank_limit_exact {α} (l : List α) (a b : Int) (ha : 0 ≤ a) (hb : 0 ≤ b) :
+    sqlLimit a (b - a + 1) l = Spec.rankSlice l a b ↔ rawRankLimitDeviates l.length a b = false :=
+  sqlLimit_eq_rankSlice_iff l a b ha hb
 
-theorem rank_delete_deviates_value :
-    modelRankDelete [0, 1, 2, 3, 4] 3 1 = [3, 4] ∧ Spec.rankSlice [0, 1, 2, 3, 4] 3 1 = [] := by
+/-- what D09 was: the raw `limit 3, -1` is "no limit". The guard `start > stop` is therefore
+needed, in `zDeleteRank` as in `zRangeRank`. -/
+theorem raw_rank_limit_deviates :
+    sqlLimit 3 (1 - 3 + 1) [0, 1, 2, 3, 4] = [3, 4] ∧ Spec.rankSlice [0, 1, 2, 3, 4] 3 1 = [] := by
+  decide
+
+/-- the former D09 witness: the inverted range now selects nothing -/
+theorem rank_delete_now_agrees :
+    modelRankDelete [0, 1, 2, 3, 4] 3 1 = [] ∧ Spec.rankSlice [0, 1, 2, 3, 4] 3 1 = [] := by
   decide
 
 /-! ### LIMIT offset / count of ZRANGEBYSCORE -/
@@ -378,10 +376,11 @@ example : modelRankRange [0, 1, 2, 3, 4] 3 100 = [3, 4] := by decide
 example : modelRankRange [0, 1, 2, 3, 4] 3 1 = Spec.rankSlice [0, 1, 2, 3, 4] 3 1 :=
   rank_range_refines _ _ _
 example : sqlLimit 2 (1 - 2 + 1) [0, 1, 2, 3, 4] = Spec.rankSlice [0, 1, 2, 3, 4] 2 1 :=
-  rank_delete_refines_partial _ 2 1 (by decide) (by decide) (by decide)
-example : modelRankDelete [0, 1, 2, 3, 4] 3 1 ≠ Spec.rankSlice [0, 1, 2, 3, 4] 3 1 := by
-  intro h
-  exact absurd ((rank_delete_classifier_exact _ 3 1).1 h) (by decide)
+  (raw_rank_limit_exact _ 2 1 (by decide) (by decide)).2 (by decide)
+example : modelRankDelete [0, 1, 2, 3, 4] 1 3 = [1, 2, 3] := by decide
+example : modelRankDelete [0, 1, 2, 3, 4] 3 1 = Spec.rankSlice [0, 1, 2, 3, 4] 3 1 :=
+  rank_delete_refines _ _ _
+example : rawRankLimitDeviates 5 3 1 = true := by decide
 
 example : modelOffsetCount [0, 1, 2, 3, 4] 1 2 = [1, 2] := by decide
 example : modelOffsetCount [0, 1, 2, 3, 4] 1 2 = Spec.offsetCount [0, 1, 2, 3, 4] 1 2 :=
